@@ -310,7 +310,25 @@ def gen_planted(rng):
     N = rng.choice([2, 3, 3, 4])
     basis = sorted(set([rng.choice(ASYM)] + rng.sample(OPS, rng.randint(0, 2)) + ([rng.choice(['0001', '0111', '0110'])] if rng.random() < 0.7 else [])))
     preds, ops = [], []
-    for g in range(n, n + N):
+    if rng.random() < 0.5 and n >= 3:
+        # a tree: two (or three) gates over pairs of inputs, in either order of their pairs, joined by the order-sensitive
+        # operation — which operand is the left one is then fixed by the positions of the two gates
+        N = rng.choice([3, 3, 4])
+        sym = ['0001', '0111', '0110', '1000', '1110']
+        asym = rng.choice(ASYM[:4])
+        leaf_ops = [rng.choice(sym) for _ in range(N - 1)]
+        basis = sorted(set(leaf_ops + [asym]))
+        for k in range(N - 1 if N == 3 else 2):
+            preds.append(sorted(rng.sample(range(n), 2)))
+            ops.append(leaf_ops[k])
+        if N == 4:
+            preds.append(sorted([rng.choice([n, n + 1]), rng.randrange(n)]))
+            ops.append(leaf_ops[2])
+            preds.append(sorted(rng.sample([n, n + 1, n + 2], 2)) if rng.random() < 0.5 else [n + 1 if preds[2][1] == n else n, n + 2])
+        else:
+            preds.append([n, n + 1])
+        ops.append(asym)
+    for g in range(n + len(preds), n + N):
         # later gates prefer earlier gates as operands, so that the circuit is one cone
         pool = list(range(g))
         a, b = sorted(rng.sample(pool, 2))
